@@ -36,7 +36,7 @@ def plan(tier):
 def required(tier):
     cells = [f"cell:{a}{b}:{r}" for a in "><" for b in "><" for r in ("accepted", "rejected")]
     return ["post:path_exists", "post:extract_path", "cli_single", "cli_file", "cli_fasta",
-            "cli_gz", "reversal_pairs", "selflink_walk", "mixed_case_graphs", "cli_stdout"] + cells
+            "cli_gz", "reversal_pairs", "selflink_walk", "mixed_case_graphs", "cli_stdout", "path_file_without_final_newline"] + cells
 
 
 # -- contracts --------------------------------------------------------------------------------
@@ -216,7 +216,13 @@ def run_case(ctx, rng, index, casedir):
         exp_txt = (f">seq_{plist[i]}\n" if fasta else "") + exp_list[i] + "\n"
         if read_text(out1) != exp_txt:
             viol.append({"kind": "cli_single_output", "msg": f"find_path {plist[i]} wrote {read_text(out1)[:80]!r} expected {exp_txt[:80]!r}"})
-    pf = write_text(os.path.join(casedir, "paths.txt"), "\n".join(plist) + "\n")
+    nl = "\r\n" if rng.random() < 0.1 else "\n"
+    unterminated = rng.random() < 0.15  # the last path is still a path
+    if unterminated:
+        M.hit("path_file_without_final_newline")
+    pf = os.path.join(casedir, "paths.txt")
+    with open(pf, "w", newline="") as f:
+        f.write(nl.join(plist) + ("" if unterminated else nl))
     out2 = os.path.join(casedir, "multi.txt")
     fasta2 = rng.random() < 0.5
     o = run_cli(["find_path", gpath, pf, "-o", out2] + (["-f"] if fasta2 else []))
